@@ -24,7 +24,7 @@ RULE = ("connect_coding_graph(k, mask, t) for every order-2 mask x t in 1..4, ra
         "read-only trap); a sub-mask never yields more arcs; for t >= 2 latter_map_to_accessor(accessor_to_latter_map("
         "connect_valid_graph(mask)), k, threshold=t) is the same graph (all -1 when empty). Non-trivial: trimming removed "
         "at least one vertex or the call raised; distinct = hash of (k, mask, t, dtype)."
-        ' Also: masks found by hill climbing that need up to 13 pruning sweeps (props/corpus_deep_masks.json), induced cycles of 3^(k-1) out-degree-1 vertices (k = 5..8) next to a small branching core, closed graphs of k+1 vertices at the orders 7..10, and one latter-map object trimmed at thresholds 4, 3, 2 in turn with a digest of the map before and after.')
+        ' Also: masks found by hill climbing that need up to 13 pruning sweeps (props/corpus_deep_masks.json), induced cycles of 3^(k-1) out-degree-1 vertices (k = 5..8) next to a small branching core, closed graphs of k+1 vertices at the orders 7..10, and one latter-map object trimmed at thresholds 4, 3, 2 in turn with a digest of the map before and after; thresholds passed as numpy integers (connect_coding_graph and latter_map_to_accessor) and a verbose=True twin of the generation call.')
 
 
 def setup(ctx):
@@ -257,6 +257,22 @@ def check_generate(ctx, case):
         if checked:
             ctx.cls("repeated after the returned graph was scrambled")
             out = _call(ctx, dsw, k, fm, t)
+    if ctx.rng.random() < (0.04 if case["fam"] == "exhaustive" else 0.3) and n <= 4096:
+        # the same request with the threshold as a numpy integer (thresholds swept with numpy.arange), and with progress output
+        import contextlib
+        import io
+        budget = 400 * n * (min(n, 4096) + 8) + 20000
+        typ = ctx.rng.choice([np.int64, np.int32, np.uint8])
+        alt = monitored(dsw.connect_coding_graph, budget, k, fm, typ(t))
+        if not _same_outcome(out, alt):
+            ctx.fail("threshold-type-changes-result", "connect_coding_graph(k=%d, mask=%s, threshold=%s(%d)) %s, with the plain int %s" % (
+                k, case["mask"], typ.__name__, t, alt.describe(), out.describe()))
+        with contextlib.redirect_stdout(io.StringIO()):
+            loud = monitored(dsw.connect_coding_graph, 3 * budget, k, fm, t, verbose=True)
+        if not _same_outcome(out, loud) and "budget" not in (out.kind, loud.kind):
+            ctx.fail("progress-output-changes-result", "connect_coding_graph(k=%d, mask=%s, t=%d, verbose=True) %s, without progress output %s" % (
+                k, case["mask"], t, loud.describe(), out.describe()))
+        ctx.cls("threshold as a numpy integer / progress output twin")
     nontrivial = (len(S) < len(S0)) or not S
     tag = "t%d|%s" % (t, "empty" if not S else "nonempty")
     if out.kind == "budget":
@@ -309,7 +325,10 @@ def check_generate(ctx, case):
     # latter-map route, t >= 2
     if t >= 2 and S0 and n <= 4096:     # remove_useless is quadratic in the number of vertices: orders <= 6 only
         shuffled = ctx.rng.random() < 0.3
-        lm_out = monitored(_latter_route, 400 * n * (n + 8) + 20000, dsw, k, frozen(mask), t, ctx.rng if shuffled else None)
+        t_passed = ctx.rng.choice([t, t, np.int64(t), np.int32(t), np.uint8(t)])     # thresholds often come out of numpy.arange
+        if not isinstance(t_passed, int):
+            ctx.cls("latter-map-route|threshold as a numpy integer")
+        lm_out = monitored(_latter_route, 400 * n * (n + 8) + 20000, dsw, k, frozen(mask), t_passed, ctx.rng if shuffled else None)
         if shuffled:
             ctx.cls("latter-map-route|map written in arbitrary order")
         if lm_out.kind != "ok":
@@ -383,6 +402,19 @@ def _latter_route(dsw, k, mask, t, rng=None):
     return dsw.latter_map_to_accessor(lm, k, threshold=t)
 
 
+def _same_outcome(a, b):
+    if a.kind != b.kind:
+        return False
+    if a.kind == "raised":
+        return type(a.exc) is type(b.exc)
+    if a.kind != "ok":
+        return True
+    try:
+        return np.array_equal(np.asarray(a.value[0]), np.asarray(b.value[0])) and np.array_equal(np.asarray(a.value[1]), np.asarray(b.value[1]))
+    except Exception:
+        return False
+
+
 CHECKS = {"generate": check_generate}
 
 
@@ -394,7 +426,8 @@ def floors(agg, tier):
             need = 500 if (t, e) not in ((3, "nonempty"), (4, "nonempty")) else (100 if t == 3 else 2)
             if c.get("t%d|%s" % (t, e), 0) < need:
                 out.append("t%d|%s observed %d < %d" % (t, e, c.get("t%d|%s" % (t, e), 0), need))
-    for name, need in (("t1|information-free structure removed", 500), ("latter-map-route|checked", 1000),
+    for name, need in (("t1|information-free structure removed", 500), ("latter-map-route|checked", 1000), ("latter-map-route|threshold as a numpy integer", 10000),
+                       ("threshold as a numpy integer / progress output twin", 3000),
                        ("monotonicity|checked", 500), ("rounds|3", 50),
                        ("latter-map-route|one map object trimmed at 4, 3, 2 in turn", 500), ("family|long-cycle", 4),
                        ("family|tiny-at-large-order", 3), ("family|deep-sweeps", 10), ("family|near-full-large-order", 1), ("family|sub-alphabet", 30),
